@@ -2163,7 +2163,7 @@ class _Project:
 
     def delete(self, fileid: FileId) -> None:
         self.buffer_texts.pop(fileid, None)
-        self.yaml_domain.delete(fileid.name)
+        yaml_dependents = self.yaml_domain.delete(fileid.name)
 
         if fileid.suffix in RST_EXTENSIONS or self.yaml_domain.is_known_yaml(fileid):
             # Drop every page generated from this file: a YAML file can yield several
@@ -2177,6 +2177,10 @@ class _Project:
 
             # Pages which checked that this file exists have to look again
             self.update_dependents(fileid)
+
+            # YAML files which inherit from this file have to be generated again
+            for dependent in yaml_dependents:
+                self.update(dependent, self.buffer_texts.get(dependent))
         else:
             self.update_asset(fileid)
 
